@@ -125,6 +125,18 @@ class Model:
                 task.fixing_allocating_facility_id_list = [
                     "".join(["F", "%d" % k]) for k in t["fixF"]
                 ]
+        if cfg.get("assignAfter"):
+            # the user sets the numbers as attributes after constructing the objects
+            for c, cc in zip(self.comps, cfg["comps"]):
+                c.space_size = cc["space"] / 2
+            for p, pc in zip(self.wps, cfg["wps"]):
+                p.max_space_size = pc["cap"] / 2
+            for t, tc in zip(self.tasks, cfg["tasks"]):
+                t.due_time = tc["due"]
+            for w, wc in zip(self.workers, cfg["workers"]):
+                w.cost_per_time = float(wc["cost"])
+            for f, fc in zip(self.facs, cfg["facs"]):
+                f.cost_per_time = float(fc["cost"])
         self.project = BaseProject(
             init_datetime=INIT_DT,
             unit_timedelta=datetime.timedelta(minutes=1),
